@@ -106,8 +106,9 @@ def run_extra(ctx):
     r2, v2 = run_dates(ctx, rnd, exe)
     r3, v3 = run_reduce(ctx, rnd, exe)
     r4, v4 = run_axes(ctx, rnd, exe)
-    runs += r2 + r3 + r4
-    violations += v4 + v2 + v3
+    r5, v5 = run_paced(ctx, rnd, exe)
+    runs += r2 + r3 + r4 + r5
+    violations += v4 + v5 + v2 + v3
     return {"runs": runs, "violations": violations[:5],
             "assumptions": ["e2e: the CLI is run on generated files; row order parsed from its piped (snapshot) output",
                             "e2e date: the CLI runs with TZ=UTC (the model of time.Parse assumes time.Local knows no zone names)"]}
@@ -315,6 +316,90 @@ def run_axes(ctx, rnd, exe):
                                    "cli_rows": got_rows, "spec_rows": want["rows"], "cli_cols": got_cols, "spec_cols": want["cols"],
                                    "rc": rc, "stderr": err.decode("utf8", "replace")[-300:]})
                 break
+    return runs, violations
+
+
+def paced(cmd, chunks, pause, timeout=60):
+    """run the CLI on stdin delivered in chunks with a pause between them (several 100 ms render ticks per pause)"""
+    import time
+    p = subprocess.Popen(cmd, stdin=subprocess.PIPE, stdout=subprocess.PIPE, stderr=subprocess.PIPE)
+    try:
+        for i, c in enumerate(chunks):
+            if i:
+                time.sleep(pause)
+            p.stdin.write(c.encode())
+            p.stdin.flush()
+        p.stdin.close()
+        p.stdin = None
+        out, err = p.communicate(timeout=timeout)
+        return p.returncode, out, err
+    except Exception as e:  # noqa
+        p.kill()
+        return -1, b"", str(e).encode()
+
+
+def run_paced(ctx, rnd, exe):
+    """The render loop of the real binary (`RunAggregationLoop` renders every 100 ms, piped output or not, with the sorter
+    closures built once): stdin arrives in two parts with a pause.  Part 1 = a stranger and ONE weekday/month name (their
+    single comparison sends the `contextual` closure to its fallback whatever the map order), part 2 = more names.  The model
+    of the render loop (`axes` op = `tableRenders`: the closure's variables are kept between the renders) predicts ONE final
+    order for every map order of both renders; a closure built per render (or a final render that forgets the earlier ones)
+    would show the arrival-dependent orders of F19 instead (seen with pause 0).  A mismatch is re-tried once with a longer
+    pause (a starved process may miss the render between the parts) before it counts."""
+    work = ctx["work"]
+    violations, runs = [], 0
+    nsets = 2 if ctx["tier"] == "quick" else 10
+    for si in range(nsets):
+        pool = rnd.pick([["mon", "fri", "tue", "wed", "sat", "Sun", "THU"], ["jan", "Feb", "mar", "dec", "oct", "MAY"]])
+        names = []
+        for _ in range(3 + rnd.intn(3)):
+            k = rnd.pick(pool)
+            if k not in names:
+                names.append(k)
+        if len(names) < 3:
+            continue
+        stranger = rnd.pick(["abc", "zzz", "10", "n/a", "Mo"])
+        mode = rnd.pick(["contextual", "contextual", "context:desc", "contextual:reverse"])
+        keys = [stranger] + names
+        # the model: every map order of render 1 (2 keys), several of the final render
+        answers = set()
+        for first in ([0, 1], [1, 0]):
+            for _ in range(4):
+                last = list(range(len(keys)))
+                for i in range(len(last) - 1, 0, -1):
+                    j = rnd.intn(i + 1)
+                    last[i], last[j] = last[j], last[i]
+                case = "C13 axes %s %s %s %s 0:%s/0:%s %s -" % (hexs(mode), hexs(mode), ";".join(hexs(k) for k in keys), hexs("c"),
+                                                              ",".join(map(str, first)), ",".join(map(str, last)), ";".join("-" for _ in keys))
+                p = subprocess.run([ctx["driver"]], input=case + "\n", stdout=subprocess.PIPE, text=True, timeout=60)
+                answers.add(p.stdout.strip())
+        if len(answers) != 1 or not list(answers)[0].startswith("ok "):
+            violations.append({"key": "e2e-paced-model", "keys": keys, "sort": mode, "model": sorted(answers)[:3]})
+            continue
+        want = [bytes.fromhex(h).decode() for h in list(answers)[0][3:].split("/")[-1].split(":")[1].split(";")]
+        sub = ["table", "histo", "heatmap"][si % 3]
+        if sub == "histo":
+            cmd = [exe, "--nocolor", "histo", "-m", r"(\S+) (\S+)", "-e", "{2}", "--sort", mode, "-n", "100", "--batch", "1"]
+        else:
+            cmd = [exe, "--nocolor", sub, "-m", r"(\S+) (\S+)", "-e", "{$ {1} {2}}", "--sort-rows", mode, "--sort-cols", mode,
+                   "--rows", "100", "--batch", "1"]
+        got, rc, err = None, 0, b""
+        for pause in (0.5, 2.5):
+            part1 = ["c " + stranger, "c " + names[0]]
+            part2 = ["c " + n for n in names[1:]] + ["c " + rnd.pick(keys) for _ in range(rnd.intn(3))]
+            for part in (part1, part2):
+                for i in range(len(part) - 1, 0, -1):
+                    j = rnd.intn(i + 1)
+                    part[i], part[j] = part[j], part[i]
+            rc, out, err = paced(cmd, ["\n".join(part1) + "\n", "\n".join(part2) + "\n"], pause)
+            runs += 1
+            text = body_lines(out)
+            got = [l.split()[0] for l in text[(0 if sub == "histo" else 1):] if l.split() and l.split()[0] in keys and not l.startswith(" ")]
+            if rc == 0 and got == want:
+                break
+        if rc != 0 or got != want:
+            violations.append({"key": "e2e-paced-order", "cmd": " ".join(cmd[1:]), "part1": part1, "part2": part2, "sort": mode,
+                               "cli_order": got, "model_order": want, "rc": rc, "stderr": err.decode("utf8", "replace")[-300:]})
     return runs, violations
 
 
